@@ -47,7 +47,7 @@ func (c *Correctable) Watch(level int) <-chan struct{} {
 	ch := make(chan struct{})
 	c.mu.Lock()
 	defer c.mu.Unlock()
-	if level <= c.level {
+	if level <= c.level || c.done {
 		close(ch)
 		return ch
 	}
